@@ -141,7 +141,7 @@ Sep(st, kind) ==
     [] kind = "NL1" -> Brk(st, 1)
     [] kind = "NL2" -> Brk(st, 2)
     [] kind = "LEAD" -> Scan(st.lead)                 \* may contain line breaks: counted
-    [] kind = "FIN" -> Scan(st.trail \o st.fin)
+    [] kind = "FIN" -> Scan(st.trail \o (CASE st.fin = "" -> "" [] st.fin = "\n" -> st.eol [] OTHER -> st.eol \o st.eol))      \* the final line breaks follow the style's line end
 \* local alternatives for one separator of the given kind (C03: "one or two local overrides"); sequences: jobs address them by ordinal
 Alts(kind) ==
   CASE kind = "WS1" -> <<" ", "\t", "  \t ">>
